@@ -291,7 +291,16 @@ func (t *Transformer) processKeys(internal document.DIDDocument,
 
 		publicKeys = append(publicKeys, externalPK)
 
+		seenPurposes := make(map[string]bool)
+
 		for _, p := range pk.Purpose() {
+			// a purpose listed twice still means one reference from that relationship
+			if seenPurposes[p] {
+				continue
+			}
+
+			seenPurposes[p] = true
+
 			switch p {
 			case document.KeyPurposeAuthentication:
 				purposes[document.AuthenticationProperty] = append(purposes[document.AuthenticationProperty], id)
